@@ -26,6 +26,7 @@ RULE = (
 ASSUMPTIONS = [
     "expected values come from the reference decoder (table constructor arguments), temperatures compare the stored word",
     "when one update changes both the unit item and a temperature word only count/exactly-once is checked for that temperature, not the argument values",
+    "an observer that re-writes the very item it is being told about (second update applied from inside the callback): that item must tell every observer about both changes exactly once; by-stander items sharing its bytes are not judged (the two updates overlap, the property does not determine their (old, new) pairs)",
 ]
 BUDGET = {
     "quick": {"workers": 16, "examples": 9600},
@@ -112,10 +113,13 @@ def strategy(tier):
         st.builds(lambda i, o, b: [["unwatch_all", i], ["watch2", i, o], ["flip", i, b], ["unwatch", i, o], ["flip", i, b]],
                   st.integers(0, 2000), st.integers(0, N_OBS - 1), bits),
     )
-    reent = st.builds(lambda i, a, b: [["reent", i, a, b]], st.integers(0, 2000), st.sampled_from(["unwatch-later", "unwatch-self", "unwatch-all", "poke"]), bits)
+    reent = st.builds(lambda i, a, b: [["reent", i, a, b]], st.integers(0, 2000), st.sampled_from(["unwatch-later", "unwatch-self", "unwatch-all", "poke", "poke-same"]), bits)
     unitflip = st.builds(lambda i: [["unitflip", i]], st.integers(0, 50))
     item = st.one_of(ops.map(lambda o: [o]), ops.map(lambda o: [o]), ops.map(lambda o: [o]), ops.map(lambda o: [o]), churn, reent, unitflip)
-    return st.builds(
+    refresh = st.builds(lambda cls, i, k, e, n, seed, sd: {"k": "refresh", "cls": cls, "item": i, "kseg": k, "extra": e, "nmut": n, "seed": seed, "straddle": sd},
+                        st.sampled_from(["async", "sync"]), st.integers(0, 400), st.integers(0, 30), st.integers(0, 3), st.integers(0, 6),
+                        st.integers(0, 2**32), st.sampled_from([True, True, False]))
+    hist = st.builds(
         lambda ci, cls, seed, fill, o: {"combo": ci, "cls": cls, "seed": seed, "fill": fill, "ops": [x for grp in o for x in grp][:14]},
         st.integers(0, ncombo - 1),
         st.sampled_from(["sync", "async"]),
@@ -123,6 +127,130 @@ def strategy(tier):
         st.sampled_from(["rnd", "rnd", "zero", "ones"]),
         st.lists(item, min_size=1, max_size=10),
     )
+    return st.integers(0, 4).flatmap(lambda i: refresh if i == 0 else hist)
+
+
+# ------------------------------------------------------------------ refresh through the real transfer code
+SEG = 39
+_snapc = {}
+
+
+def _snap_pair():
+    from .. import vworld
+    if not _snapc:
+        snap = vworld.load_snapshot(vworld.default_snapshot_path())[0]
+        plat, cv, lv = snap.packtype.lower(), snap.config_version, snap.log_version
+        p = packs.pair(plat, cv, lv)
+        two = sorted(t for t in p.items if p.items[t].width == 2 and p.items[t].pos + 1 >= SEG and p.items[t].pos + 2 <= packs.BLOCK)
+        _snapc.update(snap=snap, plat=plat, cv=cv, lv=lv, p=p, two=two)
+    return _snapc
+
+
+def _run_refresh(res, case):
+    """a multi-segment refresh is ONE update: the real transfer code (async get() on the virtual loop / threaded structure on the
+    stepped engine) fetches a range of a silently changed simulator block; a 2-byte item lies across a segment boundary and both
+    of its bytes changed, further changes lie in other segments"""
+    from .. import clients, stepped, vworld
+    from ..runner import SetupFailed
+
+    c = _snap_pair()
+    p, two = c["p"], c["two"]
+    it = p.items[two[case["item"] % len(two)]]
+    rnd = _prng("rf", case["seed"], n=64)
+    if case.get("straddle", True):
+        k = 1 + case["kseg"] % min(3, (it.pos + 1) // SEG)
+        start = it.pos + 1 - SEG * k
+    else:
+        start = (case["kseg"] * 7) % max(1, it.pos)
+        k = (it.pos - start) // SEG + 1
+    length = min(packs.BLOCK - start, SEG * (k + 1 + case["extra"] % 4))
+    C = c["snap"].bytes
+    S = bytearray(C)
+    S[it.pos] ^= rnd[0] | 1
+    S[it.pos + 1] ^= rnd[1] | 1
+    for j in range(case["nmut"] % 7):
+        pos = start + (rnd[2 + 2 * j] * 256 + rnd[3 + 2 * j]) % length
+        S[pos] ^= rnd[20 + j] | 1
+    S = bytes(S)
+    log = []
+
+    def watch_all(struct, accessors):
+        for t, acc in accessors.items():
+            def fn(sender, old, new, _t=t):
+                log.append((_t, sender, old, new, struct.status_block))
+            acc.watch(fn)
+
+    if case["cls"] == "async":
+        from geckolib.driver import GeckoStatusBlockProtocolHandler
+        W = vworld.World()
+        sim = vworld.make_simulator()
+        peer = W.add_peer(sim)
+        out = {}
+
+        async def main(W):
+            spa, tm, ev = await clients.connect_async_spa(W, peer)
+            try:
+                if spa.struct.status_block != C:
+                    raise SetupFailed("connected client does not hold the snapshot block")
+                watch_all(spa.struct, spa.accessors)
+                out["acc"] = dict(spa.accessors)
+                sim.structure.set_status_block(S)
+                ok = await spa.struct.get(spa._protocol, lambda: GeckoStatusBlockProtocolHandler.request(
+                    spa._protocol.get_and_increment_sequence_counter(False), start, length, parms=spa.sendparms), 3)
+                out["ok"], out["final"] = ok, spa.struct.status_block
+            finally:
+                await clients.shutdown(tm)
+        W.run(main)
+    elif case["cls"] == "sync":
+        out = {}
+
+        def hook(struct):
+            packs.build_real(struct, c["plat"], c["cv"], c["lv"])
+            struct.set_status_block(C)
+            watch_all(struct, struct.accessors)
+            out["acc"] = dict(struct.accessors)
+        r = stepped.run_structure_transfers(S, C, [{"start": start, "len": length, "c2s": [], "s2c": []}], struct_hook=hook)[0]
+        out["ok"], out["final"] = r["ok"], r["block"]
+    else:
+        raise InvalidCase(case)
+    if not out["ok"]:
+        raise SetupFailed("fault-free refresh failed")
+    final = out["final"]
+    if final[it.pos:it.pos + 2] != S[it.pos:it.pos + 2]:
+        raise SetupFailed("refresh did not install the changed word")
+    calls = {}
+    for t, sender, o, n, blk in log:
+        calls.setdefault(t, []).append((sender, o, n, blk))
+    unit_changed = p.unit(C) != p.unit(final) if "TempUnits" in p.items else False
+    for t, item in p.items.items():
+        if item.pos + item.width > packs.BLOCK or t not in out["acc"]:
+            continue
+        got = calls.get(t, [])
+        changed = item.stored(C) != item.stored(final)
+        where = "straddles-segment-boundary" if (item.width == 2 and (item.pos + 1 - start) % SEG == 0 and start <= item.pos < start + length) else "inside-segment"
+        tail = f"refresh|{case['cls']}|{where}"
+        if changed and not got:
+            res.fail(f"C03|missing-notification|{tail}", f"{t}: {item.stored(C)!r} -> {item.stored(final)!r} by refresh({start},{length}) but no observer call")
+        elif len(got) > (1 if changed else 0):
+            res.fail(f"C03|{'duplicate' if changed else 'spurious'}-notification|{tail}",
+                     f"{t}: {len(got)} calls {[(g[1], g[2]) for g in got]} for one refresh({start},{length}); value {item.stored(C)!r} -> {item.stored(final)!r}")
+        if changed and got:
+            sender, o, n, blk = got[0]
+            if blk != final:
+                res.fail(f"C03|stale-block-in-callback|refresh|{case['cls']}", f"{t}: the observer read a block that is not the refreshed block "
+                         f"(differs at {[i for i in range(packs.BLOCK) if blk[i] != final[i]][:6]})")
+            if item.kind != "Temp":
+                eo, en = item.decode(C), item.decode(final)
+                if (o, n) != (eo, en):
+                    res.fail(f"C03|wrong-args|refresh|{item.kind}", f"{t}: observer got ({o!r},{n!r}) expected ({eo!r},{en!r})")
+            elif not unit_changed:
+                u = p.unit(final)
+                eo, en = float(packs.temp_value(item.stored(C), u)), float(packs.temp_value(item.stored(final), u))
+                if abs(o - eo) > 1e-9 or abs(n - en) > 1e-9:
+                    res.fail("C03|wrong-args|refresh|Temp", f"{t}: ({o!r},{n!r}) expected ({eo!r},{en!r})")
+    res.nontrivial = True
+    res.label("refresh-" + case["cls"], "refresh-straddle" if case.get("straddle", True) else "refresh-anywhere")
+    return res
 
 
 def _geometry(it, off, ln):
@@ -137,6 +265,8 @@ def _geometry(it, off, ln):
 
 def run_case(case) -> Result:
     res = Result()
+    if case.get("k") == "refresh":
+        return _run_refresh(res, case)
     combos = packs.combos()
     plat, cv, lv = combos[case["combo"] % len(combos)]
     cls = case["cls"]
@@ -202,8 +332,32 @@ def run_case(case) -> Result:
         unit_changed = p.unit(old) != p.unit(new) if "TempUnits" in p.items else False
         unit_new = p.unit(new) if "TempUnits" in p.items else None
         # items that must / must not notify
+        nested_items = set()
+        if nested is not None and nested.get("fired"):
+            for b in range(nested["off"], nested["off"] + len(nested["seg"])):
+                nested_items.update(by_byte.get(b, ()))
         for t in touched:
             it = p.items[t]
+            if t in nested_items and t != (reent or {}).get("same"):
+                # shares bytes with the item an observer re-writes from inside its callback: for such a by-stander the two updates
+                # overlap in time and the property does not say which (old, new) pairs it is told - not judged
+                for oid in list(model[t]):
+                    calls.pop((t, oid), None)
+                continue
+            if t in nested_items:
+                # the item is changed by the outer update AND by the update an observer applied from inside its callback: every
+                # registered observer is told about each of the two changes exactly once
+                exp = [(a_, b_) for a_, b_ in ((old, new), (new, final)) if it.stored(a_) != it.stored(b_)]
+                for oid in model[t]:
+                    got = calls.pop((t, oid), [])
+                    if len(got) != len(exp):
+                        res.fail(f"C03|reentrant|nested-same-item|{'missing' if len(got) < len(exp) else 'extra'}",
+                                 f"{t}: observer {oid} called {len(got)} times for {len(exp)} changes of the item (outer update + nested update of the same item "
+                                 f"from inside a callback): {[(g[1], g[2]) for g in got]}")
+                    elif it.kind != "Temp" and sorted((repr(g[1]), repr(g[2])) for g in got) != sorted((repr(it.decode(a_)), repr(it.decode(b_))) for a_, b_ in exp):
+                        res.fail(f"C03|reentrant|nested-same-item|args", f"{t}: observer {oid} got {[(g[1], g[2]) for g in got]}, expected "
+                                 f"{[(it.decode(a_), it.decode(b_)) for a_, b_ in exp]}")
+                continue
             geo = _geometry(it, off, len(seg))
             so, sn = it.stored(old), it.stored(new)
             changed = so != sn
@@ -248,8 +402,8 @@ def run_case(case) -> Result:
                             res.fail(f"C03|wrong-args|{it.kind}", f"{t}: observer got ({o!r},{n!r}) expected ({eo!r},{en!r})")
         # the nested update an observer made from inside its callback: every item it touches notifies exactly once iff changed
         if nested is not None and nested.get("fired"):
-            for b in range(nested["off"], nested["off"] + len(nested["seg"])):
-                for t in by_byte.get(b, ()):
+            for t in sorted(nested_items - touched):
+                if True:
                     it = p.items[t]
                     ch = it.stored(new) != it.stored(final)
                     for oid in model[t]:
@@ -344,8 +498,8 @@ def run_case(case) -> Result:
             t = tags[op[1] % len(tags)]
             it = p.items[t]
             action = op[2]
-            if action not in ("unwatch-later", "unwatch-self", "unwatch-all", "poke") or it.pos + it.width > packs.BLOCK:
-                raise InvalidCase(op) if action not in ("unwatch-later", "unwatch-self", "unwatch-all", "poke") else None
+            if action not in ("unwatch-later", "unwatch-self", "unwatch-all", "poke", "poke-same"):
+                raise InvalidCase(op)
             if it.pos + it.width > packs.BLOCK or "A" in model[t]:
                 continue
             cur = int.from_bytes(block[it.pos:it.pos + it.width], "big")
@@ -366,6 +520,14 @@ def run_case(case) -> Result:
                 zoff = (it.pos + 512) % (packs.BLOCK - 2)
                 zseg = bytes([block[zoff] ^ 0x5A, block[zoff + 1] ^ 0xA5])
                 nested = {"off": zoff, "seg": zseg, "fired": False}
+            elif action == "poke-same":
+                # the observer writes the item it is being told about (e.g. snaps a set point back): a second change of the SAME item,
+                # applied at once, from inside the notification of the first
+                v2 = cur
+                for bit in op[3][:1]:
+                    v2 ^= 1 << ((bit + 1) % (8 * it.width))
+                v2 ^= 1
+                nested = {"off": it.pos, "seg": v2.to_bytes(it.width, "big"), "fired": False}
             state = {"done": False}
 
             def obs_a(sender, old_v, new_v, _t=t):
@@ -390,15 +552,17 @@ def run_case(case) -> Result:
             acc.watch(obs_b)
             model[t] = model[t] + ["A", "B"]
             override = {(t, "A"): 1, (t, "B"): 1 if action in ("unwatch-self", "poke") else 0}
-            do_update(it.pos, seg, "reentrant-" + action, reent={"override": override, "nested": nested})
+            if action == "poke-same":
+                override = {}
+            do_update(it.pos, seg, "reentrant-" + action, reent={"override": override, "nested": nested, "same": t if action == "poke-same" else None})
             # what is still registered afterwards
             if action == "unwatch-all":
                 model[t] = []
             else:
                 left = [o for o in model[t] if o not in ("A", "B")]
-                if action in ("unwatch-later", "poke"):
+                if action in ("unwatch-later", "poke", "poke-same"):
                     acc.unwatch(obs_a)
-                    if action == "poke":
+                    if action in ("poke", "poke-same"):
                         acc.unwatch(obs_b)
                 elif action == "unwatch-self":
                     acc.unwatch(obs_b)
